@@ -1,7 +1,7 @@
 #!/bin/sh
 # tools/seedrun.sh <seeded dir name> [extra check args]  -- run the property's check against a recorded seeded change
 d=/verif/seeded/$1; shift
-pid=$(/venv/bin/python -c "import json,sys; print(json.load(open('$d/meta.json'))['property'])")
+pid=${FORCE_PROP:-$(/venv/bin/python -c "import json,sys; print(json.load(open('$d/meta.json'))['property'])")}
 wt=/tmp/sr-$$
 git -C /repo worktree add -q --detach "$wt" HEAD || exit 2
 git -C "$wt" apply "$d/patch.diff" 2>/dev/null || git -C "$wt" apply --3way "$d/patch.diff" || { echo "patch does not apply"; git -C /repo worktree remove --force "$wt"; exit 3; }
